@@ -699,6 +699,15 @@ func (g *gen) loop(d int, vars []string) N {
 		guarded := N{"k": "when", "c": g.m(N{"k": "lt", "a": lit(I(g.rng.Intn(3))), "b": N{"k": "var", "n": acc}}), "body": []any{exit}}
 		body = append(body, N{"k": "let", "bs": []any{N{"n": y, "e": lit(I(10))}}, "body": []any{guarded}})
 	}
+	if g.ctl && g.one(4) {
+		// the body of a loop is a tagbody: (when (< k acc) (go Skip7)) (mark) Skip7 (mark); the tag is spelled with a capital
+		// letter in both places
+		g.bctr++
+		tag := fmt.Sprintf("Skip%d", g.bctr)
+		body = append(body,
+			N{"k": "when", "c": g.m(N{"k": "lt", "a": lit(I(g.rng.Intn(3))), "b": N{"k": "var", "n": acc}}), "body": []any{N{"k": "go", "tag": tag}}},
+			g.m(lit(I(g.rng.Intn(10)))), N{"k": "var", "n": tag}, g.m(lit(I(g.rng.Intn(10)))))
+	}
 	var lp N
 	outer := []any{N{"n": acc, "e": lit(I(0))}} // bindings of the let around the loop
 	switch g.rng.Intn(4) {
